@@ -99,6 +99,17 @@ def prop_file(ctx, case):
             raise Violation('header', f'{k}: got {h[k]} expected {spec["hdr"][k]}')
     if h['cpu_info'] != spec['cpu']:
         raise Violation('header', f'cpu_info: got {h["cpu_info"]!r}')
+    # the same dump through the PyKdebugParser listings: events only / logs only, same order
+    from pykdebugparser.pykdebugparser import PyKdebugParser
+    pk_events = guard(lambda: list(PyKdebugParser().kevents(BudgetReader(blob))))
+    if pk_events != evs:
+        raise Violation('listing-events', f'PyKdebugParser.kevents gives {len(pk_events)} events, KdBufParser.parse {len(evs)}')
+    pk = PyKdebugParser()
+    pk_logs = guard(lambda: list(pk.os_log_events(BudgetReader(blob))))
+    if pk_logs != lgs:
+        raise Violation('listing-logs', f'PyKdebugParser.os_log_events gives {len(pk_logs)} logs, KdBufParser.parse {len(lgs)}')
+    if dict(pk.threads_pids) != exp['tp'] or dict(pk.pids_names) != exp['pn']:
+        raise Violation('listing-tables', f'tables after os_log_events: {dict(pk.threads_pids)} / {dict(pk.pids_names)}')
     _, seq = files.v3_layout(spec)
     kinds = [k for k, _ in seq]
     nonempty = sum(1 for c in spec['chunks'] if c)
